@@ -80,32 +80,32 @@ structure MSt where
 def MSt.init : MSt := ⟨none, KSt.init⟩
 
 /-- `$makeMap` (types.js:626-633) -/
-def makeMap (reg : Nat → Str) : List Entry → JMap → KSt → JMap × KSt
+def makeMap (fs : Int → Str) : List Entry → JMap → KSt → JMap × KSt
   | [], m, st => (m, st)
   | e :: es, m, st =>
-    let r := keyFor reg e.1 st
-    makeMap reg es (m.set r.1 e) r.2
+    let r := keyFor fs e.1 st
+    makeMap fs es (m.set r.1 e) r.2
 
 def outOfEntry : Option Entry → Int
   | some e => e.2
   | none => 0
 
 /-- one emitted map operation -/
-def step (reg : Nat → Str) (s : MSt) : Op → MSt × Out
+def step (fs : Int → Str) (s : MSt) : Op → MSt × Out
   | .store k v =>
     match s.m with
     | none => (s, .panicNilMap)                      -- `(m || $throwRuntimeError(…))` comes before `keyFor`
     | some jm =>
-      let r := keyFor reg k s.st
+      let r := keyFor fs k s.st
       (⟨some (jm.set r.1 (k, v)), r.2⟩, .unit)
   | .delete k =>
-    let r := keyFor reg k s.st
+    let r := keyFor fs k s.st
     (⟨s.m.map (·.delete r.1), r.2⟩, .unit)
   | .index k =>
-    let r := keyFor reg k s.st
+    let r := keyFor fs k s.st
     (⟨s.m, r.2⟩, .val (outOfEntry (s.m.bind (·.get r.1))))
   | .commaOk k =>
-    let r := keyFor reg k s.st
+    let r := keyFor fs k s.st
     (⟨s.m, r.2⟩, match s.m.bind (·.get r.1) with
       | some e => .valOk e.2 true
       | none => .valOk 0 false)
@@ -113,13 +113,13 @@ def step (reg : Nat → Str) (s : MSt) : Op → MSt × Out
   | .make => (⟨some [], s.st⟩, .unit)
   | .setNil => (⟨none, s.st⟩, .unit)
   | .literal es =>
-    let r := makeMap reg es [] s.st
+    let r := makeMap fs es [] s.st
     (⟨some r.1, r.2⟩, .unit)
   | .unhashable => (s, .panicUnhashable)             -- `c.keyFor` is undefined for slice/map/func types: the call throws
 
-def run (reg : Nat → Str) : MSt → List Op → List Out
+def run (fs : Int → Str) : MSt → List Op → List Out
   | _, [] => []
-  | s, o :: os => let r := step reg s o; r.2 :: run reg r.1 os
+  | s, o :: os => let r := step fs s o; r.2 :: run fs r.1 os
 
 /-! ### `for k, v := range m { body }` (statements.go:211-236) -/
 
@@ -131,9 +131,9 @@ inductive Mut
 /-- a loop body: from the entry and its own state, the mutations it performs (in order) and its new state -/
 abbrev Body (σ : Type) := Entry → σ → List Mut × σ
 
-def applyMut (reg : Nat → Str) (ms : JMap × KSt) : Mut → JMap × KSt
-  | .store k v => let r := keyFor reg k ms.2; (ms.1.set r.1 (k, v), r.2)
-  | .delete k => let r := keyFor reg k ms.2; (ms.1.delete r.1, r.2)
+def applyMut (fs : Int → Str) (ms : JMap × KSt) : Mut → JMap × KSt
+  | .store k v => let r := keyFor fs k ms.2; (ms.1.set r.1 (k, v), r.2)
+  | .delete k => let r := keyFor fs k ms.2; (ms.1.delete r.1, r.2)
 
 structure LoopSt (σ : Type) where
   jm : JMap
@@ -145,21 +145,21 @@ structure LoopSt (σ : Type) where
   visited : List (Nat × Entry)
 
 /-- `n` = `_size - _i` iterations remain -/
-def rangeLoop {σ : Type} (reg : Nat → Str) (body : Body σ) : Nat → LoopSt σ → LoopSt σ
+def rangeLoop {σ : Type} (fs : Int → Str) (body : Body σ) : Nat → LoopSt σ → LoopSt σ
   | 0, s => s
   | n + 1, s =>
     let nx := JMap.next s.jm s.it                      -- `_key = _keys.next().value`
     match nx.1.bind (JMap.get s.jm) with               -- `_entry = m.get(_key)`; `m.get(undefined)` is undefined
-    | none => rangeLoop reg body n { s with it := nx.2 }  -- `if (_entry === undefined) continue` (post: `_i++`)
+    | none => rangeLoop fs body n { s with it := nx.2 }  -- `if (_entry === undefined) continue` (post: `_i++`)
     | some e =>
       let b := body e s.user
-      let ms := b.1.foldl (applyMut reg) (s.jm, s.st)
-      rangeLoop reg body n
+      let ms := b.1.foldl (applyMut fs) (s.jm, s.st)
+      rangeLoop fs body n
         { jm := ms.1, it := nx.2, st := ms.2, user := b.2,
           visited := s.visited ++ [((nx.2.getD 0) - 1, e)] }
 
 /-- the whole statement on a non-nil map: `_keys = m.keys(); _size = m.size` then the loop -/
-def range {σ : Type} (reg : Nat → Str) (body : Body σ) (jm : JMap) (st : KSt) (u : σ) : LoopSt σ :=
-  rangeLoop reg body jm.size { jm := jm, it := some 0, st := st, user := u, visited := [] }
+def range {σ : Type} (fs : Int → Str) (body : Body σ) (jm : JMap) (st : KSt) (u : σ) : LoopSt σ :=
+  rangeLoop fs body jm.size { jm := jm, it := some 0, st := st, user := u, visited := [] }
 
 end GV.GoMap
